@@ -8,7 +8,7 @@ development (C01-C05).
 
 Expression language (nested tuples):
   ("term", name, adj)            series element / its adjoint
-  ("neg", e) ("add", e1, e2) ("sub", e1, e2) ("div", e, k) with k a non-zero int
+  ("neg", e) ("add", e1, e2) ("sub", e1, e2) ("div", e, k) with k a non-zero int, ("scale", e, k) integer literal times expression
   ("call", fname, e)             scope function applied to an expression (index appended by the DSL)
   ("callseries", fname, name)    scope function applied to a series name
   ("ifflag", flag, e_true, e_false)   flag = ("name", id) | ("indexed", id)  (id[index[0]])
@@ -86,6 +86,20 @@ def _expr(e):
             if not isinstance(kv, int) or kv == 0:
                 raise DSLError("division by a non-integer or zero")
             return ("div", _expr(e.left), kv)
+        if isinstance(e.op, ast.Mult):
+            # integer literal times an expression, on either side
+            def lit(k):
+                if isinstance(k, ast.UnaryOp) and isinstance(k.op, ast.USub) and isinstance(k.operand, ast.Constant) and isinstance(k.operand.value, int) and not isinstance(k.operand.value, bool):
+                    return -k.operand.value
+                if isinstance(k, ast.Constant) and isinstance(k.value, int) and not isinstance(k.value, bool):
+                    return k.value
+                return None
+            kl, kr = lit(e.left), lit(e.right)
+            if kl is not None and kr is None:
+                return ("scale", _expr(e.right), kl)
+            if kr is not None and kl is None:
+                return ("scale", _expr(e.left), kr)
+            raise DSLError("multiplication is only defined between an integer literal and an expression")
         raise DSLError(f"operator {type(e.op).__name__}")
     if isinstance(e, ast.Call):
         if not isinstance(e.func, ast.Name) or len(e.args) != 1 or e.keywords:
@@ -165,7 +179,7 @@ def terms_of(e, acc=None):
     elif e[0] in ("add", "sub"):
         terms_of(e[1], acc)
         terms_of(e[2], acc)
-    elif e[0] == "div":
+    elif e[0] in ("div", "scale"):
         terms_of(e[1], acc)
     elif e[0] == "ifflag":
         terms_of(e[2], acc)
@@ -187,6 +201,8 @@ def show(e):
         return f"({show(e[1])} - {show(e[2])})"
     if k == "div":
         return f"({show(e[1])} / {e[2]})"
+    if k == "scale":
+        return f"({e[2]} * {show(e[1])})"
     if k == "call":
         return f"{e[1]}({show(e[2])})"
     if k == "callseries":
